@@ -937,6 +937,18 @@ func GenC20Script(t *rapid.T, thorough bool) *Script {
 			}
 		}
 	}
+	for wi := range c.World.Workloads {
+		// workloads whose pods request sub-unit quantities only (GPU fraction, milli-CPU, no memory): the sums change
+		// with a pod's phase without crossing a whole unit
+		if chance(t, "subunitonly", 30) {
+			for pi := range c.World.Workloads[wi].Pods {
+				p := &c.World.Workloads[wi].Pods[pi]
+				p.MemMi, p.GPUs, p.GPUMemMi, p.NumDevices = 0, 0, 0, 0
+				p.CPUm = int64(pick(t, "subcpu", 100, 200, 300))
+				p.Fraction = pick(t, "subfrac", "", "0.2", "0.3", "0.25")
+			}
+		}
+	}
 	placeInitial(t, o, &c.World)
 	var pods, pgs, qs []string
 	for _, w := range c.World.Workloads {
